@@ -9,6 +9,7 @@
   Only property theorems and their non-vacuity examples live here; helpers are in `IcingaProofs/C11/Lemmas.lean`.
 -/
 import IcingaProofs.C11.Lemmas
+import IcingaProofs.C11.Family
 namespace Icinga.C11
 
 /-! ## Part 1 — one node -/
@@ -315,5 +316,177 @@ def exT3 : Topo :=
 theorem logged_not_dropped_three_endpoints_counterexample :
     (1 : Ep) ∈ exT3.eps 0 (exT3.zoneOf 0) ∧ exT3.conn 0 1 = false ∧
     (1 : Ep) ∉ (relay exT3 0 Origin.loc none true).sent ∧ (relay exT3 0 Origin.loc none true).persist = false := by decide
+
+
+/-! ## Part 2 — the cluster
+
+    `start T orig oz` is the originating endpoint relaying a fresh event about an object of zone `oz`; `run … sched`
+    delivers in-flight messages in the order `sched` chooses (any list of indices: every delivery order, including
+    ones that leave messages undelivered); a recipient builds the origin as `MessageHandler` does, discards the
+    message unless the origin's zone may access the object, otherwise processes the event and relays it again. -/
+
+section Cluster
+variable {T : Topo}
+
+/-- **net_only_entitled.**  For every topology, originator, object zone and delivery order: whoever processes the
+    event (apart from the originator), whoever a message is in flight to, and whoever discarded one, is an endpoint
+    of an entitled zone. -/
+theorem net_only_entitled (wf : NetWF T) (orig : Ep) (oz : Zone) (sched : List Nat) :
+    (∀ e ∈ (run T oz (start T orig oz) sched).processed, e = orig ∨ NetEntitled T (T.zoneOf orig) oz (T.zoneOf e)) ∧
+    (∀ msg ∈ (run T oz (start T orig oz) sched).inflight, NetEntitled T (T.zoneOf orig) oz (T.zoneOf msg.to)) ∧
+    (∀ msg ∈ (run T oz (start T orig oz) sched).discarded, NetEntitled T (T.zoneOf orig) oz (T.zoneOf msg.to)) := by
+  have := run_induction (EntInv T orig oz) (fun n i h => entInv_step wf orig oz n i h) sched _ (entInv_start wf orig oz)
+  exact ⟨this.processed, this.inflight, this.discarded⟩
+
+/-- **second_hop_no_echo.**  The node that receives a relayed message never hands it back to the sender, and never
+    into the zone it came from - the sender's zone when that is a foreign zone, the zone named by the `originZone`
+    field the sender copied from its own origin when sender and recipient are zone peers. -/
+theorem second_hop_no_echo (hz : ∀ s z e, e ∈ T.eps s z → T.zoneOf e = z) {s : Ep} {o : Origin} {oz : Zone} {msg : Msg}
+    (hm : msg ∈ emit T s o oz) {fuel : Nat} {log : Bool} {e' : Ep}
+    (he' : e' ∈ (relayFuel fuel T msg.to (originOf T msg) (some oz) log).sent) :
+    e' ≠ s ∧ (T.zoneOf s ≠ T.zoneOf msg.to → T.zoneOf e' ≠ T.zoneOf s) ∧
+      (T.zoneOf s = T.zoneOf msg.to → o.fromZone ≠ some (T.zoneOf e')) := by
+  obtain ⟨_, hfrm, hoz⟩ := mem_emit.mp hm
+  obtain ⟨h1, h2⟩ := no_echo (hz msg.to) he'
+  unfold originOf at h1 h2
+  simp only [hfrm, hoz] at h1 h2
+  refine ⟨fun h => h1 (by rw [h]), ?_, ?_⟩
+  · intro hne heq
+    have : (T.zoneOf s != T.zoneOf msg.to) = true := by simpa using hne
+    simp only [this, if_true] at h2
+    exact h2 (by rw [heq])
+  · intro heq
+    have : (T.zoneOf s != T.zoneOf msg.to) = false := by simpa using heq
+    simpa [this] using h2
+
+/-- **net_no_discard.**  When the originator's zone is itself entitled (the object's zone or an ancestor; any zone
+    for an object of a global zone), no message is ever sent to somebody who has to discard it: every recipient
+    accepts (`Zone::CanAccessObject` on the origin it computes), for every topology and delivery order. -/
+theorem net_no_discard (wf : NetWF T) (orig : Ep) (oz : Zone)
+    (horig : T.isGlobal oz = true ∨ isChildOf T oz (T.zoneOf orig) = true) (sched : List Nat) :
+    (run T oz (start T orig oz) sched).discarded = [] := by
+  by_cases hg : T.isGlobal oz = true
+  · -- a global object is accessible to every zone
+    apply run_induction (fun n => n.discarded = [])
+    · intro n i h
+      rcases deliver_cases T oz n i with heq | ⟨msg, _, ⟨_, _, _, hd⟩ | ⟨hacc, _, _, _⟩⟩
+      · rw [heq]; exact h
+      · rw [hd]; exact h
+      · exfalso
+        unfold accept canAccess at hacc
+        cases hfz : (originOf T msg).fromZone <;> simp [hfz, hg] at hacc
+    · rfl
+  · have hg' : T.isGlobal oz = false := by simpa using hg
+    have horig' : isChildOf T oz (T.zoneOf orig) = true := by
+      rcases horig with h | h
+      · exact absurd h hg
+      · exact h
+    have := run_induction (T := T) (oz := oz) (AccInv T oz) (fun n i h => by
+      rcases deliver_cases T oz n i with heq | ⟨msg, hmem, ⟨_, hi, _, hd⟩ | ⟨hacc, _, _, _⟩⟩
+      · rw [heq]; exact h
+      · obtain ⟨hto, hrest⟩ := h.inflight msg hmem
+        obtain ⟨_, hfz⟩ := accept_of_accInv hrest
+        refine ⟨?_, by rw [hd]; exact h.discarded⟩
+        intro m' hm'
+        rw [hi] at hm'
+        rcases List.mem_append.mp hm' with hm' | hm'
+        · exact h.inflight m' (List.mem_of_mem_eraseIdx hm')
+        · exact emit_accInv wf hg' hto hfz m' hm'
+      · exfalso
+        obtain ⟨_, hrest⟩ := h.inflight msg hmem
+        rw [(accept_of_accInv hrest).1] at hacc
+        cases hacc) sched (start T orig oz)
+      ⟨emit_accInv wf hg' horig' (by intro z hz; cases hz), rfl⟩
+    exact this.discarded
+
+end Cluster
+
+/-- `net_only_entitled` / `net_no_discard` are not vacuous: the example cluster meets `NetWF`, and a run processes
+    the event on all six endpoints -/
+theorem exT_netwf : NetWF exT :=
+  { exT_detached with zone_of_mem := fun s => (exT_wf s).zone_of_mem }
+example : (run exT 2 (start exT 4 2) [0, 0, 0, 0, 0]).processed = [4, 5, 2, 3, 0, 1] ∧
+    (run exT 2 (start exT 4 2) [0, 0, 0, 0, 0]).inflight = [] := by decide
+example : exT.isGlobal 2 = true ∨ isChildOf exT 2 (exT.zoneOf 4) = true := by decide
+/-- the cluster-wide specification rejects a history with a duplicate, with an unentitled recipient, with a discard -/
+example : specNet exT [0, 1, 2, 3, 4, 5] 4 2 ⟨[], [4, 5, 2, 5], [], []⟩ = some .processed_twice := by decide
+example : specNet exT [0, 1, 2, 3, 4, 5] 2 1 ⟨[], [2, 3, 4], [], []⟩ = some .processed_not_entitled := by decide
+example : specNet exT [0, 1, 2, 3, 4, 5] 2 1 ⟨[], [2, 3], [], [⟨0, 2, none⟩]⟩ = some .discarded_message := by decide
+/-- an originator whose zone is NOT entitled (endpoint 4 of the lowest zone, object of the middle zone): the message
+    goes up to an entitled zone and is discarded there (C13's rule) - why `net_no_discard` has its hypothesis -/
+example : (run exT 1 (start exT 4 1) [0]).discarded.length = 1 ∧ (run exT 1 (start exT 4 1) [0]).processed = [4] := by decide
+
+/-!
+  ### The two composition statements
+
+  FULL STATEMENTS (not proved here; DESIGN.md Appendix A.4 sketches the "compass" invariant they need):
+
+    finite_and_no_duplicate :
+      ∀ T (NetWF T) (parent a forest) (conn symmetric) (every zone has at most two endpoints, the same on every node)
+        orig oz sched, specNet T allEps orig oz (run T oz (start T orig oz) sched) = none
+      -- nobody processes the event twice, at most one message per endpoint is ever put on the wire
+
+    complete_when_connected :
+      ∀ T … orig oz sched, (run …).inflight = [] → specComplete T allEps zones orig oz (run …) = true
+      -- masters connected to peers and to one endpoint of each directly related zone ⇒ everybody entitled processes it
+
+  What IS established, and how it is labelled:
+  * the `…_partial` theorems below: both statements for every originator, every object zone and EVERY delivery order
+    on an explicitly listed FINITE family (`family`, IcingaProofs/C11/Family.lean: the depth-3 chain with two
+    endpoints per zone and a global zone; all links up and each single directly-related link cut; three iteration
+    orders), by exhaustive kernel evaluation of all executions.  An enumeration of a finite family is not a proof of
+    the unbounded claim.
+  * the safety halves that do hold for every topology: `net_only_entitled`, `net_no_discard`, `second_hop_no_echo`,
+    and per node `single_entry`, `only_master_crosses`, `no_duplicate_send`.
+  * the check additionally runs the compiled network model on every generated topology (simulation, evidence only).
+  * `no_duplicate_three_endpoints_counterexample`: the restriction to at most two endpoints per zone is necessary.
+-/
+
+/-- **finite_and_no_duplicate_partial** (FINITE FAMILY, exhaustive kernel evaluation - see the comment above).
+    For every configuration of `family`, every originator, every object zone (the global one included) and every
+    delivery order: no endpoint processes the event twice, only entitled endpoints process it, nothing is discarded
+    when the originator is entitled, and the messages ever put on the wire number at most the endpoints. -/
+theorem finite_and_no_duplicate_partial {c : Nat × Nat} (hc : c ∈ family) {orig : Ep} (ho : orig ∈ chainEps)
+    {oz : Zone} (hz : oz ∈ chainZones) (sched : List Nat) :
+    specNet (chainTopo c.1 c.2) chainEps orig oz (run (chainTopo c.1 c.2) oz (start (chainTopo c.1 c.2) orig oz) sched) = none := by
+  have := family_run hc ho hz sched
+  unfold netOk at this
+  simp only [Bool.and_eq_true, Option.isNone_iff_eq_none] at this
+  exact this.1
+
+/-- **complete_when_connected_partial** (FINITE FAMILY, exhaustive kernel evaluation).  For every configuration of
+    `family` in which the zone masters reach their peers and one endpoint of each directly related zone, every
+    originator of an entitled zone, every object zone and every delivery order that leaves nothing in flight: every
+    endpoint of every entitled zone has processed the event (exactly once, by the theorem above). -/
+theorem complete_when_connected_partial {c : Nat × Nat} (hc : c ∈ family) {orig : Ep} (ho : orig ∈ chainEps)
+    {oz : Zone} (hz : oz ∈ chainZones) (sched : List Nat)
+    (hconn : mastersConnectedB (chainTopo c.1 c.2) chainEps chainZones = true)
+    (hent : netEntitledB (chainTopo c.1 c.2) ((chainTopo c.1 c.2).zoneOf orig) oz ((chainTopo c.1 c.2).zoneOf orig) = true)
+    (hq : (run (chainTopo c.1 c.2) oz (start (chainTopo c.1 c.2) orig oz) sched).inflight = []) :
+    completeB (chainTopo c.1 c.2) chainEps orig oz (run (chainTopo c.1 c.2) oz (start (chainTopo c.1 c.2) orig oz) sched) = true := by
+  have := family_run hc ho hz sched
+  unfold netOk specComplete at this
+  simp only [Bool.and_eq_true, Bool.or_eq_true, Bool.not_eq_true', Bool.and_eq_false_imp] at this
+  rcases this.2 with h | h
+  · have := h ⟨by simp [hq], hconn⟩
+    rw [hent] at this
+    cases this
+  · exact h
+
+/-- the hypotheses of `complete_when_connected_partial` are satisfiable: 9 of the 12 connectivity patterns meet the
+    connectivity hypothesis, and the run below is quiescent with everybody served although the link 0-2 is cut -/
+example : (cutMasks.filter (fun m => mastersConnectedB (chainTopo m 0) chainEps chainZones)).length = 9 := by decide
+example : ((2039, 0) : Nat × Nat) ∈ family ∧ mastersConnectedB (chainTopo 2039 0) chainEps chainZones = true ∧
+    (run (chainTopo 2039 0) 2 (start (chainTopo 2039 0) 4 2) [0, 0, 0, 0, 0]).inflight = [] ∧
+    (run (chainTopo 2039 0) 2 (start (chainTopo 2039 0) 4 2) [0, 0, 0, 0, 0]).processed = [4, 5, 2, 3, 1, 0] := by decide
+
+/-- **no_duplicate_three_endpoints_counterexample.**  With three endpoints in a zone (outside the property's
+    quantifier; the code warns about it, zone.cpp:147-152) two members that do not see each other both act as zone
+    master and endpoint 3 of the child zone processes the same event twice - so "at most two endpoints per zone" is a
+    necessary hypothesis of `finite_and_no_duplicate`. -/
+theorem no_duplicate_three_endpoints_counterexample :
+    (run threeTopo 1 (start threeTopo 1 1) [0, 0, 0, 0]).processed = [1, 3, 2, 0, 3] ∧
+    specNet threeTopo [0, 1, 2, 3] 1 1 (run threeTopo 1 (start threeTopo 1 1) [0, 0, 0, 0]) = some .processed_twice := by
+  decide
 
 end Icinga.C11
